@@ -1502,6 +1502,22 @@ fn afterend(rep: &mut Report) {
                 found.push(format!("afterend ({flavour}; iteration {it}, ended by {} with messages still queued): after the JoinHandle resolved is_alive() = {alive}, tell returned {t:?}, ask returned {a:?} (is_alive is false and every send fails with Err(Send) at once)", if it % 3 == 0 { "stop()" } else { "kill()" }));
                 break;
             }
+            // the same for message types that are not structs of the caller's crate (a number, the unit, a string slice):
+            // the sender gets its error, it does not fail itself
+            if it < 6 {
+                let r2 = r.clone();
+                let prim = tokio::spawn(async move {
+                    let a = r2.tell(9u32).await.is_err();
+                    let b = matches!(r2.ask(()).await, Err(rsactor::Error::Send { .. }));
+                    let c = r2.tell_with_timeout("text", Duration::from_millis(5)).await.is_err();
+                    (a, b, c)
+                })
+                .await;
+                if !matches!(prim, Ok((true, true, true))) {
+                    found.push(format!("[C12] afterend ({flavour}; iteration {it}): sends of a u32, of () and of a &str to an actor that has ended, made from a task of their own: {} (each returns an error to its sender; the sender's task does not fail because the actor it wrote to is gone)", match &prim { Ok(x) => format!("errors returned (tell u32, ask (), timed tell &str) = {x:?}"), Err(e) => format!("the sending task {}", if e.is_panic() { "panicked" } else { "was cancelled" }) }));
+                    break;
+                }
+            }
         }
         found
        });
@@ -1509,7 +1525,11 @@ fn afterend(rep: &mut Report) {
       });
       cases += 300;
       for f in found {
-          rep.v("C11 C03", f);
+          if let Some(t) = f.strip_prefix("[C12] ") {
+              rep.v("C12 C13", t.to_string());
+          } else {
+              rep.v("C11 C03", f);
+          }
       }
     }
     rep.s("afterend", format!("cases={cases}"));
@@ -1824,6 +1844,73 @@ fn killdrop(secs: u64, rep: &mut Report) {
         }
     }
     rep.s("killdrop", format!("trials={done}"));
+}
+
+// ------------------------------------------------------------------------------------------------ metrics of a handler that is cut short
+/// (builds with metrics only) a handler that was entered is counted however it is left: by returning, by panicking, or by
+/// the actor's task being cancelled while the handler is suspended (JoinHandle::abort, the runtime going away); the
+/// time it ran is in max_processing_time
+#[cfg(feature = "metrics")]
+mod mab {
+    use super::*;
+    pub struct Ma;
+    impl Actor for Ma {
+        type Args = ();
+        type Error = String;
+        async fn on_start(_: (), _: &ActorRef<Self>) -> Result<Self, String> {
+            Ok(Ma)
+        }
+    }
+    pub struct Work(pub u32);
+    impl Message<Work> for Ma {
+        type Reply = u32;
+        async fn handle(&mut self, m: Work, _: &ActorRef<Self>) -> u32 {
+            if m.0 == 99 {
+                std::future::pending::<()>().await;
+            }
+            if m.0 == 66 {
+                panic!("scripted panic in a handler");
+            }
+            m.0
+        }
+    }
+}
+#[cfg(feature = "metrics")]
+fn metabort(rep: &mut Report) {
+    use mab::*;
+    let mut cases = 0u64;
+    for how in ["abort", "panic", "runtime dropped"] {
+        cases += 1;
+        note(format!("metabort: three messages, the third handler is left by: {how}"));
+        let rt = tokio::runtime::Builder::new_current_thread().enable_time().build().unwrap();
+        let (r, count_before) = rt.block_on(async {
+            let (r, jh) = spawn::<Ma>(());
+            let _ = r.tell(Work(1)).await;
+            let _ = r.tell(Work(2)).await;
+            let _ = r.tell(Work(if how == "panic" { 66 } else { 99 })).await;
+            tokio::time::sleep(Duration::from_millis(30)).await; // two handlers have returned, the third is suspended (or has panicked)
+            let before = r.message_count();
+            if how == "abort" {
+                jh.abort();
+                let _ = jh.await;
+            } else if how == "panic" {
+                let _ = jh.await;
+            }
+            (r, before)
+        });
+        drop(rt); // "runtime dropped": the actor's task is cancelled here
+        let n = r.message_count();
+        let snap = r.metrics();
+        let max = r.max_processing_time();
+        if n != 3 || snap.message_count != 3 || (how != "panic" && max < Duration::from_millis(20)) {
+            rep.v("C20", format!("metabort ({how}): three handlers were entered; two returned and the third was left by {how} after about 30 ms; afterwards message_count() = {n} (snapshot: {}), max_processing_time() = {max:?}; while the third was suspended the count read {count_before} (every handler that was entered is counted once it is left, whatever way, and its time is in the maximum)", snap.message_count));
+        }
+    }
+    rep.s("metabort", format!("cases={cases}"));
+}
+#[cfg(not(feature = "metrics"))]
+fn metabort(rep: &mut Report) {
+    rep.s("metabort", "not applicable: this build has no metrics".into());
 }
 
 // ------------------------------------------------------------------------------------------------ what happened earlier does not matter
@@ -2302,6 +2389,22 @@ impl Message<W> for B {
     }
 }
 
+impl Message<u32> for B {
+    type Reply = u32;
+    async fn handle(&mut self, m: u32, _: &ActorRef<Self>) -> u32 {
+        m
+    }
+}
+impl Message<()> for B {
+    type Reply = ();
+    async fn handle(&mut self, _: (), _: &ActorRef<Self>) {}
+}
+impl Message<&'static str> for B {
+    type Reply = usize;
+    async fn handle(&mut self, m: &'static str, _: &ActorRef<Self>) -> usize {
+        m.len()
+    }
+}
 struct U(u32);
 impl Message<U> for B {
     type Reply = ();
@@ -2840,6 +2943,38 @@ fn blocking(rep: &mut Report) {
             rep.v("C17 C09 C10", format!("capacity 1, a 300 ms handler running and one message queued: blocking_tell(.., Some(50 ms)) returned {first:?} (a Timeout, its message never handled); the next blocking_tell(.., Some(5 s)) - the mailbox still full, a slot free well within its budget - returned {second:?} after {el:?} (Ok, after waiting for the slot); handled: {l:?}"));
         }
         let _ = slow.kill();
+    }
+    // (b16) the dead letter of a timed-out blocking call exists when the call returns (as it does for the async variants),
+    //       however long the installed subscriber takes to record it
+    {
+        note("blocking (b16): timed blocking calls that time out, under a subscriber that takes 8-40 ms per event".into());
+        harness::log::install();
+        harness::log::SLOW_LOG_ALWAYS.store(true, SeqCst);
+        harness::log::SLOW_LOG_MS.store(40, SeqCst);
+        let mut bad = None;
+        for round in 0..4u32 {
+            let log = Arc::new(Mutex::new(vec![]));
+            let (slow, _j) = rt.block_on(async { spawn_with_mailbox_capacity::<B>((log.clone(), 400), 1) });
+            let _ = slow.blocking_tell(W(81), None); // in the handler for 400 ms
+            std::thread::sleep(Duration::from_millis(60));
+            let _ = slow.blocking_tell(W(82), None); // fills the only slot
+            let before = harness::log::DEAD_LETTER_EVENTS.load(SeqCst);
+            let res = if round % 2 == 0 { slow.blocking_tell(W(83), Some(Duration::from_millis(30))).map(|_| 0) } else { slow.blocking_ask(W(83), Some(Duration::from_millis(30))) };
+            let at_return = harness::log::DEAD_LETTER_EVENTS.load(SeqCst) - before;
+            calls += 3;
+            if !matches!(res, Err(rsactor::Error::Timeout { .. })) || at_return != 1 {
+                bad = Some((round, format!("{res:?}"), at_return));
+                let _ = slow.kill();
+                break;
+            }
+            let _ = slow.kill();
+            std::thread::sleep(Duration::from_millis(60));
+        }
+        harness::log::SLOW_LOG_MS.store(0, SeqCst);
+        harness::log::SLOW_LOG_ALWAYS.store(false, SeqCst);
+        if let Some((round, res, n)) = bad {
+            rep.v("C17 C13", format!("a timed blocking call ({}) against a full capacity-1 mailbox / a 400 ms handler, budget 30 ms, under a tracing subscriber that takes 8-40 ms per event: it returned {res}; dead letters recorded when it returned: {n} (Err(Timeout) with its one dead letter already recorded - what tell_with_timeout / ask_with_timeout do)", if round % 2 == 0 { "blocking_tell" } else { "blocking_ask" }));
+        }
     }
     // (b8) what a blocking_tell with a timeout returns agrees with what happened to the message, also when the
     //      actor ends right after handling it
@@ -3529,6 +3664,7 @@ fn main() {
             "slowlog" => ("C14 C15", 900),
             "stale" => ("C01 C09 C10 C07", 240),
             "killdrop" => ("C06", 600),
+            "metabort" => ("C20", 120),
             "erasedblk" => ("C16 C17", 600),
             "blocking" => ("C17 C10 C03", 720),
             "ids" => ("C11", 120),
@@ -3564,6 +3700,7 @@ fn main() {
                     "slowlog" => slowlog(secs, &mut r),
                     "stale" => stale(&mut r),
                     "killdrop" => killdrop(secs, &mut r),
+                    "metabort" => metabort(&mut r),
                     "erasedblk" => erasedblk(&mut r),
                     "blocking" => blocking(&mut r),
                     "ids" => ids(&mut r),
